@@ -29,7 +29,14 @@ META = {
              "time indexes (CloneAndDeleteMatching), close+reload, and reads. ShiftMatching on VALUE indexes is not driven: it goes "
              "through GetBeacon, whose extracted facts getBeaconServesAllValueTypes=no / getBeaconBuildsRequestedType=no say it serves "
              "only int64/float64/string value types and always builds them as int64 — C11's subject. A ShiftMatching count on a time "
-             "index is always 0 (=all in the window): a count that cuts a run of equal timestamps leaves the choice to the sort."),
+             "index is always 0 (=all in the window): a count that cuts a run of equal timestamps leaves the choice to the sort. "
+             "Stated edges: a negative From reads from the start (pinned statement of GetTreasuresByBeacon; generated); a negative Limit is "
+             "outside the statement; window bounds are arbitrary instants (int64 wrap modelled, far-past / far-future generated), stored "
+             "timestamps are what UnixNano makes of the request's (wrap64 in the model; the generator stays inside 1970..1970+9s). Forced "
+             "schedules: two first readers (hook beacon.build), a shift that loses a claim between selection and delete (hook "
+             "shift.selected; the general claim race is covered by one closed witness, not by a theorem over all schedules). Not "
+             "driven: the other Increment variants and Uint32SlicePush (same SaveFunction path, content types without a value index "
+             "of their own), PatchMeta.SetUpdatedAt / SetCreatedAt (server clock)."),
     "design_ref": "§8 C07",
 }
 
@@ -100,6 +107,22 @@ class Shadow:
         elif e != "-" and int(e) != 0:
             r["expire"] = int(e)
         return "patched"
+
+    def patch_create(self, k, e):
+        """PatchTreasures with CreateIfNotExist: a missing / void key becomes a body whose counter is the increment"""
+        r = self.recs.get(k)
+        if r is not None and r["t"] not in ("void",):
+            return self.patch(k, e)
+        exp = 0 if e in ("-", "clear") else int(e)
+        if r is None:
+            self.recs[k] = {"t": "bytes", "v": 1, "created": 0, "updated": 0, "expire": exp}
+        else:
+            r["t"], r["v"] = "bytes", 1
+            if e == "clear":
+                r["expire"] = 0
+            elif exp:
+                r["expire"] = exp
+        return "created"
 
     def attr(self, idx, k):
         """sort attribute of key k under index idx, or None when the record does not carry it"""
@@ -250,7 +273,7 @@ def symptom(fid, q, keys, sh, hist):
 
 def parse_q(f):
     opt = lambda s: None if s == "-" else int(s)
-    return (f[1], f[2] == "asc", int(f[3]), int(f[4]), opt(f[5]), opt(f[6]))
+    return (f[1], f[2] == "asc", max(0, int(f[3])), int(f[4]), opt(f[5]), opt(f[6]))   # a negative offset reads from the start
 
 
 def judge(c):
@@ -299,6 +322,22 @@ def judge(c):
             sh.set(f[1], f[2], int(f[3]), int(f[4]), int(f[5]), int(f[6]))
         elif f[0] == "del" and len(f) == 2:
             sh.delete(f[1])
+        elif f[0] == "patchc" and len(f) == 3:
+            hist.on_set(sh, f[1], 0, 0, 1)
+            want = sh.patch_create(f[1], f[2])
+            if impl != want:
+                unexplained.append((i, "`%s` answered `%s`, by the documented semantics it is `%s`" % (op, impl, want)))
+        elif f[0] == "shiftkeys" and len(f) == 2:
+            want, seen = [], set()
+            for k in f[1].split(","):
+                if k in sh.recs and k not in seen:
+                    want.append(k)
+                    seen.add(k)
+            got = [k for k in impl[2:].split(",") if k] if impl.startswith("r ") else None
+            if got != want:
+                unexplained.append((i, "`%s` handed out %s, the named records that exist are %s" % (op, got, want)))
+            for k in want:
+                sh.delete(k)
         elif f[0] == "srelease" and impl.startswith("r "):
             for k in [k for k in impl[2:].split(",") if k]:
                 if k in sh.recs and not (sh.recs[k]["t"] == "bytes" and held_v is not None and sh.recs[k]["v"] >= held_v):
@@ -489,6 +528,11 @@ def spec_violated(rep):
                     sh.delete(k)
         elif f[0] == "srelease" and impl.startswith("r "):
             for k in [k for k in impl[2:].split(",") if k]:
+                sh.delete(k)
+        elif f[0] == "patchc" and len(f) == 3:
+            sh.patch_create(f[1], f[2])
+        elif f[0] == "shiftkeys" and len(f) == 2:
+            for k in f[1].split(","):
                 sh.delete(k)
         elif f[0] == "patch" and len(f) == 3:
             want = sh.patch(f[1], f[2])
